@@ -85,17 +85,46 @@ func c03Child() {
 		os.Exit(4)
 	}
 	fmt.Println("READY", port)
+	// A monitoring reader, as an operator's dashboard polling the admin API does (GET /api/v1/stats is
+	// json.Marshal(Server.CurrentStats())) plus the user registry: it reads the shared server state in short
+	// bursts for as long as the server runs, concurrently with every login, logout and transfer.  A reader must
+	// never be able to wedge the state the connections update (and vice versa).
+	var monPolls atomic.Int64
+	go func() {
+		for {
+			for i := 0; i < 40; i++ {
+				st := ts.Srv.CurrentStats()
+				if i == 0 {
+					_, _ = json.Marshal(st)
+				}
+				_ = ts.Srv.Stats.Get(hotline.StatCurrentlyConnected)
+				_ = ts.Srv.ClientMgr.List()
+				monPolls.Add(1)
+			}
+			time.Sleep(400 * time.Microsecond)
+		}
+	}()
 	in := bufio.NewScanner(os.Stdin)
 	for in.Scan() {
 		switch strings.TrimSpace(in.Text()) {
 		case "stats":
-			st := ts.Srv.CurrentStats()
-			users := []int{}
-			for _, c := range ts.Srv.ClientMgr.List() {
-				users = append(users, int(binary.BigEndian.Uint16(c.ID[:])))
+			// computed on its own goroutine with bounded patience: a reader that never returns is reported, not waited for
+			ans := make(chan string, 1)
+			go func() {
+				st := ts.Srv.CurrentStats()
+				users := []int{}
+				for _, c := range ts.Srv.ClientMgr.List() {
+					users = append(users, int(binary.BigEndian.Uint16(c.ID[:])))
+				}
+				b, _ := json.Marshal(map[string]any{"connected": st["CurrentlyConnected"], "dl": st["DownloadsInProgress"], "ul": st["UploadsInProgress"], "users": users, "monitor_polls": monPolls.Load()})
+				ans <- string(b)
+			}()
+			select {
+			case a := <-ans:
+				fmt.Println("STATS", a)
+			case <-time.After(20 * time.Second):
+				fmt.Println("STATS", `{"wedged":true}`)
 			}
-			b, _ := json.Marshal(map[string]any{"connected": st["CurrentlyConnected"], "dl": st["DownloadsInProgress"], "ul": st["UploadsInProgress"], "users": users})
-			fmt.Println("STATS", string(b))
 		case "quit":
 			ts.Close()
 			os.Exit(0)
@@ -208,7 +237,7 @@ func (cs *childSrv) stats() (map[string]any, error) {
 		var m map[string]any
 		err := json.Unmarshal([]byte(strings.TrimPrefix(strings.TrimSpace(l), "STATS ")), &m)
 		return m, err
-	case <-time.After(10 * time.Second):
+	case <-time.After(40 * time.Second):
 		return nil, fmt.Errorf("stats timeout (server state locked?)")
 	case <-cs.exited:
 		return nil, fmt.Errorf("child exited")
@@ -704,7 +733,7 @@ func hostileTransfer(r *RNG, src string, port int) (string, bool) {
 
 func init() {
 	props["C03"] = func(x *Ctx) {
-		x.rule = "one case = one child-process server + sentinel client + a batch of hostile connections (control: garbage, mutated handshakes, bad logins, logged-in guest/power clients sending 46 transaction types, a client holding the disconnect-users privilege naming user ids nobody holds (with/without ban options, odd id lengths) in disconnect / client-info / instant-message / invite requests, with hostile/plausible field mixes incl. the known panic triggers, cuts mid-transaction, logged-in clients that set their own name / icon / options / automatic reply to odd lengths and linger while the well-behaved client polls the user list every 120 ms; transfer port: garbage preambles, genuine reference numbers followed by corrupt flattened-file objects, short info forks, folder-download resume data of odd lengths, folder-upload item headers with bad sizes), each from its own loopback source address, run concurrently; judged: child alive, sentinel answered within 8 s, user list and stats equal what the sentinel alone accounts for. non-trivial = a hostile connection whose handshake the server answered (control) or that presented a genuine reference number (transfer); distinct = distinct byte script"
+		x.rule = "one case = one child-process server + sentinel client + a batch of hostile connections (control: garbage, mutated handshakes, bad logins, logged-in guest/power clients sending 46 transaction types, a client holding the disconnect-users privilege naming user ids nobody holds (with/without ban options, odd id lengths) in disconnect / client-info / instant-message / invite requests, with hostile/plausible field mixes incl. the known panic triggers, cuts mid-transaction, logged-in clients that set their own name / icon / options / automatic reply to odd lengths and linger while the well-behaved client polls the user list every 120 ms; transfer port: garbage preambles, genuine reference numbers followed by corrupt flattened-file objects, short info forks, folder-download resume data of odd lengths, folder-upload item headers with bad sizes), each from its own loopback source address, run concurrently; while, inside the server process, a monitoring reader polls what the admin API serves (Server.CurrentStats as GET /api/v1/stats does, Stats.Get, the user registry) in bursts of 40 reads every 0.4 ms for the whole run; judged: child alive, sentinel answered within 8 s, after the batch a statistics/registry reader returns (20 s) and a NEW well-behaved client can log in and is answered (two attempts, 12 s each), user list and stats equal what the sentinel alone accounts for. rwmutex-model: random schedules of 4..17 actions over four goroutines (RLock via TryRLock, RUnlock, a goroutine entering Lock(), its return, Unlock; at most one writer outstanding) carried out on a real sync.RWMutex and compared step by step with the RWLock model (happens / is turned away). non-trivial = a hostile connection whose handshake the server answered (control) or that presented a genuine reference number (transfer); distinct = distinct byte script"
 		x.assume = []string{
 			"loopback TCP from 127.x.y.z source addresses stands for remote clients",
 			"memory exhaustion, scheduler fairness, goroutine pile-up behind a never-reading client and data races on non-map fields are not exhibited by this check (partial)",
@@ -849,6 +878,33 @@ func init() {
 				c.Violation("server-wedged", "after the hostile batch the well-behaved client gets no reply")
 				return
 			}
+			// a reader of the statistics / the registry (what the admin API serves) must still return
+			if st0, err := cs.stats(); err == nil && st0["wedged"] == true {
+				c.Note("child_log", tail(cs.childLog(), 4000))
+				c.Violation("stats-reader-wedged", "after the hostile batch a reader of the server statistics and user registry (Server.CurrentStats / ClientMgr.List, what GET /api/v1/stats serves) did not return within 20 s while the monitoring reader was polling: the shared state is locked for good")
+				return
+			}
+			// a NEW well-behaved client must be able to log in and be answered (bounded patience, two attempts)
+			freshOK, freshWhy := false, ""
+			for try := 0; try < 2 && !freshOK && cs.alive(); try++ {
+				fresh, err := newTCPClient(fmt.Sprintf("127.200.0.%d", 2+try), cs.port, "admin", "secret")
+				if err != nil {
+					freshWhy = err.Error()
+					continue
+				}
+				if _, ok := fresh.request(60, hotline.TranGetUserNameList, 12*time.Second); ok {
+					freshOK = true
+				} else {
+					freshWhy = "logged in, but its user-list request got no reply within 12 s (" + fresh.isDead() + ")"
+				}
+				fresh.c.Close()
+			}
+			if !freshOK && cs.alive() {
+				c.Note("fresh_client", freshWhy)
+				c.Note("child_log", tail(cs.childLog(), 4000))
+				c.Violation("server-wedged-for-new-clients", "after the hostile batch a new well-behaved client cannot log in and get a reply: "+freshWhy)
+				return
+			}
 			// quiescence: user list and counters are what the sentinel alone accounts for
 			ok = waitFor(30*time.Second, func() bool {
 				st, err := cs.stats()
@@ -860,6 +916,10 @@ func init() {
 			})
 			st, err := cs.stats()
 			c.Note("stats", st)
+			if err == nil && st["wedged"] == true {
+				c.Violation("stats-reader-wedged", "a reader of the server statistics and user registry did not return within 20 s: the shared state is locked for good")
+				return
+			}
 			if err != nil {
 				c.Note("error", err.Error())
 				c.Violation("stats-unavailable", "server state cannot be read after the hostile batch")
@@ -883,5 +943,6 @@ func init() {
 			_ = nUsers
 		}
 		x.Add(&Family{Name: "hostile-batch", Quick: 6, Thor: 120, MaxPar: 6, Run: func(c *Case) { run(c, 220, 60) }})
+		x.Add(&Family{Name: "rwmutex-model", Quick: 400, Thor: 6000, Run: c03RWMutexFamily})
 	}
 }
